@@ -10,7 +10,7 @@ From CGV Require Import Base.PyBase Base.PyVal Gen.FragGen Dialect.DialectImpl F
      Frag.StripFacts Frag.FragProofs Frag.FragTextX Frag.FragProofsX Frag.FragStages Frag.FragSmall Frag.RingProofs
      Gen.SmilesGen Frag.SmilesParse Frag.SmilesSpec Frag.SmilesProofs Frag.SmilesIndex Frag.SmilesRelabel Frag.SmilesPerm
      Frag.Template Frag.TemplateProofs Frag.TemplateFinal Frag.TemplateGraph Frag.TemplateCompose Frag.SmilesReverse Frag.SmilesPermR
-     Frag.FragTextW Frag.FragProofsW Frag.SmilesReroot Frag.SmilesRewrite Frag.SmilesPermX Frag.SmilesPermG Frag.SmilesWf Frag.TemplateChiral Frag.TemplateChiralProofs.
+     Frag.FragTextW Frag.FragProofsW Frag.SmilesReroot Frag.SmilesRewrite Frag.SmilesPermX Frag.SmilesPermG Frag.SmilesWf Frag.SmilesDescend Frag.TemplateChiral Frag.TemplateChiralProofs.
 From CGV Require Import Base.NxGraph Compose.CutModel Compose.CutSpecDefs.
 Local Open Scope nat_scope.
 Import ListNotations.
@@ -657,6 +657,31 @@ Theorem C01_branch_order_anyrings_text : forall x pa pb y g c,
   | _, _ => False
   end.
 Proof. exact gswap_branches_text1. Qed.
+(** ANY start atom, computed: [descend_path path w] walks from the first atom along a path of choices ([None] = the next
+    atom of the tail, [Some i] = the first atom of the i-th branch of the current first atom); for [Some i] it writes the tail
+    as a last branch, exchanges branch i with its right neighbours until it is last (the general exchange: any ring bonds,
+    disjoint numbers), writes it as the tail and re-roots.  Every side condition is decided by computation; whenever a text
+    and a permutation are returned, the two graphs are related by that permutation (both fail alike).  Partial: that
+    [descend_path] SUCCEEDS for every atom of every ring-free fragment is not proved (it does on the Example; it returns
+    [None] where a ring number is shared by two branches that would have to be exchanged) *)
+Theorem C01_start_atom_any_partial : forall path w w' s, descend_path path w = Some (w', s) ->
+  graphs_rel s (graph_of false w) (graph_of false w').
+Proof. exact descend_path_sound. Qed.
+Theorem C01_start_atom_any_is_rewriting : forall path w w' s, descend_path path w = Some (w', s) ->
+  exists s', rws w w' s' /\ forall k, s' k = s k.
+Proof. exact descend_path_rws. Qed.
+Example C01_start_atom_any_nonvacuous :
+  to_string (render_smiles false ds_w) = "CC(F)(C(Cl)=O)N[NH3+]"%string /\ wf_smiles ds_w = true /\
+  match descend_path [None; Some 2; Some 1] ds_w with
+  | Some (w3, s) =>
+      to_string (render_smiles false w3) = "Cl(C(C(C)(F)(N[NH3+]))(=O))"%string /\ wf_smiles w3 = true /\
+      map s [0; 1; 2; 3; 4; 5; 6; 7] = [3; 2; 4; 1; 0; 7; 5; 6] /\
+      exists G H, graph_of false ds_w = Ok G /\ graph_of false w3 = Ok H /\
+        g_edges G = [(0, 1, VInt 1); (1, 2, VInt 1); (1, 3, VInt 1); (3, 4, VInt 1); (3, 5, VInt 2); (1, 6, VInt 1); (6, 7, VInt 1)] /\
+        g_edges H = [(0, 1, VInt 1); (1, 2, VInt 1); (2, 3, VInt 1); (2, 4, VInt 1); (2, 5, VInt 1); (5, 6, VInt 1); (1, 7, VInt 2)]
+  | None => False
+  end /\ descend 3 ds_w = None.
+Proof. exact descend_example. Qed.
 (** the documented bond orders are the ones of the installed pysmiles *)
 Theorem C13_smiles_orders : forall b, smiles_bond_to_order_lookup [bchar b] = Ok (border b).
 Proof. exact smiles_order_bchar. Qed.
@@ -701,3 +726,4 @@ Print Assumptions C01_branch_order_anyrings_partial.
 Print Assumptions C01_branch_order_anyrings_text_partial.
 Print Assumptions C01_start_atom_reroot_text.
 Print Assumptions C01_branch_order_anyrings_text.
+Print Assumptions C01_start_atom_any_partial.
